@@ -338,6 +338,10 @@ func runNum(seed int64, n int, dir string) {
 				if g.Intn(8) == 0 {
 					b = big.NewInt(g.r.Int63() - 1<<62)
 				}
+				if g.Intn(10) == 0 { // the int64 boundaries themselves
+					b = big.NewInt([]int64{0, 1, -1, 1<<63 - 1, -1 << 63, 1<<63 - 2, -1<<63 + 1, 1 << 31, 1 << 32, -1 << 31, -1<<32 - 1}[g.Intn(11)])
+					o.Count("class.i64-boundary")
+				}
 			}
 			// shrink a so that products usually fit
 			if g.Intn(3) != 0 && a.BitLen()+b.BitLen() > maxBits+118 {
